@@ -716,3 +716,166 @@ Lemma ci_estimate_witness :
     table_eqb (f_data lo) (chunks 2 1 (ci_lower data)) = false.
 Proof. eexists. eexists. eexists. eexists. repeat split; vm_compute; reflexivity. Qed.
 Close Scope string_scope.
+
+(* ---------- the reported values under each normalisation, entry by entry ---------- *)
+Section Reported.
+Variable argsort : list Q -> list nat.
+Notation sb_labels := (sb_labels argsort).
+
+Theorem reported_none rows gc m pl sc ec ts :
+  reported argsort rows gc m None pl sc ec ts = Ok (raw_table rows m pl sc ec ts (sb_labels rows gc pl sc ec)).
+Proof. reflexivity. Qed.
+
+(* by_overall: every entry divided (norm1) by the metric of the whole data set at the same threshold *)
+Theorem reported_by_overall rows gc m pl sc ec ts :
+  reported argsort rows gc m (Some NOverall) pl sc ec ts =
+  Ok (map (fun k => map (fun t => norm1 (metric_of_cmz m (rows_cm pl sc ec (rows_of k rows) t))
+                                       (metric_of_cmz m (rows_cm pl sc ec rows t))) ts)
+          (sb_labels rows gc pl sc ec)).
+Proof.
+  unfold reported. rewrite apply_overall_table. unfold raw_table, overall_row. rewrite map_map. f_equal.
+  apply map_ext. intro k. apply map2_map_map.
+Qed.
+
+(* by_min: every entry divided (norm1) by np.min of its column of the un-normalised table *)
+Theorem reported_by_min rows gc m pl sc ec ts :
+  let raw := raw_table rows m pl sc ec ts (sb_labels rows gc pl sc ec) in
+  reported argsort rows gc m (Some NMin) pl sc ec ts = Ok (map (fun row => map2 norm1 row (min_axis0 raw)) raw) /\
+  Forall (fun row => length row = length ts) raw /\
+  forall j, (j < length ts)%nat -> nth j (min_axis0 raw) None = col_min (map (fun row => nth j row None) raw).
+Proof.
+  intro raw. assert (F : Forall (fun row => length row = length ts) raw).
+  { unfold raw, raw_table. apply Forall_forall. intros row H. apply in_map_iff in H. destruct H as (k & <- & _). apply map_length. }
+  split; [reflexivity|]. split; [exact F|]. intros j Hj. now apply min_axis0_nth with (T := length ts).
+Qed.
+
+Theorem reported_unsupported rows gc m pl sc ec ts : reported argsort rows gc m (Some NUnsupported) pl sc ec ts = Err.
+Proof. reflexivity. Qed.
+End Reported.
+
+(* ---------- lower <= upper ---------- *)
+Section Ordered.
+Variable argsort : list Q -> list nat.
+Hypothesis argsort_perm : forall l, Permutation (argsort l) (seq 0 (length l)).
+Hypothesis argsort_sorted : forall l, sorted (take_nat 0%Q l (argsort l)).
+Variables Phi PhiInv pow15 : Q -> Q.
+Hypothesis Phi_range : forall x, 0 <= Phi x /\ Phi x <= 1.
+Hypothesis Phi_mono : forall x y, x <= y -> Phi x <= Phi y.
+Hypothesis PhiInv_mono : forall p p', 0 < p -> p <= p' -> p' < 1 -> PhiInv p <= PhiInv p'.
+
+(* quantile and bc: unconditional; bca: under C13's side condition on the component *)
+Theorem showbias_ci_ordered rows gc m nz cfg hist alpha pl sc ec thr bf :
+  rows_wf gc rows -> 0 < alpha -> alpha < 1 ->
+  showbias_std argsort Phi PhiInv pow15 rows gc m nz true cfg hist alpha pl sc ec thr = Ok bf ->
+  exists lo hi, b_lower bf = Some lo /\ b_upper bf = Some hi /\
+    forall i j, (i < length (f_index (b_values bf)))%nat -> (j < length (f_columns (b_values bf)))%nat ->
+      (bootstrap_method cfg = MBca -> forall col th, side_cond PhiInv pow15 MBca col th alpha) ->
+      rle (nth j (nth i (f_data lo) []) None) (nth j (nth i (f_data hi) []) None).
+Proof.
+  intros W A0 A1 H.
+  destruct (showbias_ci_frames argsort argsort_perm argsort_sorted (std_ci Phi PhiInv pow15) rows gc m nz cfg hist alpha pl sc ec thr bf W H)
+    as (d & lo0 & hi0 & Hd & Hbf).
+  destruct (showbias_ci_spec argsort argsort_perm argsort_sorted Phi PhiInv pow15 rows gc m nz cfg hist alpha pl sc ec thr bf W H)
+    as (s0 & s & data & lo & hi & _ & _ & _ & _ & El & Eh & _ & _ & Hcomp).
+  exists lo, hi. split; [exact El|]. split; [exact Eh|]. intros i j Hi Hj Hside.
+  assert (Ei : length (f_index (b_values bf)) = length (sb_labels argsort rows gc pl sc ec)) by now rewrite Hbf.
+  assert (Ec : length (f_columns (b_values bf)) = length (map Fin (threshold_array thr))) by (rewrite Hbf; cbn; now rewrite map_length).
+  rewrite Ei in Hi. rewrite Ec in Hj. specialize (Hcomp A0 A1 i j Hi Hj).
+  eapply (ci_col_ordered Phi PhiInv pow15 Phi_range Phi_mono PhiInv_mono); [exact A0|exact A1| |exact Hcomp].
+  destruct (bootstrap_method cfg) eqn:Em; try exact I. now apply Hside.
+Qed.
+End Ordered.
+
+(* ---------- the index reconstruction before fix 4320e1c: split("_") of "_".join(parts) ---------- *)
+Fixpoint count_us (s : string) : nat :=
+  match s with EmptyString => 0%nat | String c r => ((if Ascii.eqb c us_char then 1 else 0) + count_us r)%nat end.
+Lemma has_us_count s : has_us s = false <-> count_us s = 0%nat.
+Proof.
+  induction s as [|c r IH]; simpl; [tauto|]. destruct (Ascii.eqb c us_char); simpl; [split; [discriminate|lia]|exact IH].
+Qed.
+Lemma split_us_length s : length (split_us s) = S (count_us s).
+Proof.
+  induction s as [|c r IH]; simpl; [reflexivity|]. destruct (Ascii.eqb c us_char); simpl; [now rewrite IH|].
+  destruct (split_us r) as [|part parts]; simpl in *; [discriminate|exact IH].
+Qed.
+Lemma split_us_no_us s : has_us s = false -> split_us s = [s].
+Proof.
+  induction s as [|c r IH]; simpl; [reflexivity|]. destruct (Ascii.eqb c us_char); simpl; [discriminate|].
+  intro H. now rewrite (IH H).
+Qed.
+Lemma split_us_app s t : has_us s = false -> split_us (s ++ String us_char t) = s :: split_us t.
+Proof.
+  induction s as [|c r IH]; simpl.
+  - intros _. reflexivity.
+  - destruct (Ascii.eqb c us_char); simpl; [discriminate|]. intro H. now rewrite (IH H).
+Qed.
+Lemma count_us_app s t : count_us (s ++ t) = (count_us s + count_us t)%nat.
+Proof. induction s as [|c r IH]; simpl; [reflexivity|]. rewrite IH. lia. Qed.
+Lemma join_us_cons x y r : join_us (x :: y :: r) = (x ++ String us_char (join_us (y :: r)))%string.
+Proof. reflexivity. Qed.
+Lemma count_us_join parts :
+  parts <> [] -> count_us (join_us parts) = (length parts - 1 + fold_right (fun p a => count_us p + a) 0 parts)%nat.
+Proof.
+  induction parts as [|x [|y r] IH]; intro H; [congruence|unfold join_us; cbn [String.concat length fold_right]; lia|].
+  rewrite join_us_cons, count_us_app. cbn [count_us]. rewrite Ascii.eqb_refl.
+  rewrite IH by discriminate. cbn [length fold_right]. lia.
+Qed.
+
+Theorem split_join_iff parts :
+  split_us (join_us parts) = parts <-> parts <> [] /\ Forall (fun p => has_us p = false) parts.
+Proof.
+  split.
+  - intro H. assert (Hne : parts <> []).
+    { intro E. subst. discriminate H. }
+    split; [exact Hne|]. assert (L := f_equal (@length string) H). rewrite split_us_length, count_us_join in L by exact Hne.
+    assert (Z : fold_right (fun p a => (count_us p + a)%nat) 0%nat parts = 0%nat).
+    { destruct parts; [congruence|]. cbn [length] in L. lia. }
+    clear -Z. induction parts as [|p r IH]; [constructor|]. cbn [fold_right] in Z. constructor.
+    + apply has_us_count. lia.
+    + apply IH. lia.
+  - intros [Hne F]. induction parts as [|x [|y r] IH]; [congruence| |].
+    + inversion F; subst. now apply split_us_no_us.
+    + inversion F as [|? ? Hx Hr]; subst. rewrite join_us_cons, split_us_app by exact Hx. f_equal.
+      apply IH; [discriminate|exact Hr].
+Qed.
+(* consequently the joined name determines the tuple when no value contains "_" *)
+Corollary join_us_injective p q :
+  p <> [] -> q <> [] -> Forall (fun s => has_us s = false) p -> Forall (fun s => has_us s = false) q ->
+  join_us p = join_us q -> p = q.
+Proof.
+  intros Hp Hq Fp Fq E. rewrite <- (proj2 (split_join_iff p) (conj Hp Fp)), <- (proj2 (split_join_iff q) (conj Hq Fq)).
+  now rewrite E.
+Qed.
+
+(* the finding repaired by 4320e1c, on the old index reconstruction: three groups, two labels, and ("x","y") is the group
+   value of no row; the repaired code labels the three groups with their own tuples *)
+Open Scope string_scope.
+Definition ex_collision : list row :=
+  [mkRow ["x_y"; "z"] 1 (1#4); mkRow ["x"; "y_z"] 1 (3#4); mkRow ["p"; "q"] 1 1].
+Lemma legacy_labels_witness :
+  legacy_labels ex_collision (GList 2) = Ok [["p"; "q"]; ["x"; "y"]] /\
+  legacy_labels [mkRow ["x_y"; "z"] 1 (1#4)] (GList 2) = Err /\
+  legacy_labels [mkRow ["x_y"] 1 (1#4); mkRow ["u"] 1 (3#4)] (GList 1) = Ok [["u"]; ["x"]] /\
+  sb_labels iargsort ex_collision (GList 2) 1 Pos Pos = [["p"; "q"]; ["x"; "y_z"]; ["x_y"; "z"]].
+Proof. repeat split; vm_compute; reflexivity. Qed.
+
+(* non-vacuity: two group columns whose joined names collide, by_overall, two thresholds; and one group with two thresholds
+   and intervals (the case repaired by d3c5691) *)
+Lemma showbias_example :
+  showbias_std iargsort Phi0 PhiInv0 pow0
+    (ex_collision ++ [mkRow ["x_y"; "z"] 0 (1#2); mkRow ["p"; "q"] 1 0]) (GList 2) Mfnr (Some NOverall) false
+    (identity_sampler 0 MQuantile) (fun _ => Err) 0 1 Pos Pos (TList [1#2; 2])
+  = Ok (mkBias (mkFrame [["p"; "q"]; ["x"; "y_z"]; ["x_y"; "z"]] [1#2; 2]
+                        [[Some ((1#2) / (2#4)); Some ((2#2) / (4#4))]; [Some ((0#1) / (2#4)); Some ((1#1) / (4#4))];
+                         [Some ((1#1) / (2#4)); Some ((1#1) / (4#4))]]) None None None) /\
+  exists bf lo hi,
+    showbias_std iargsort Phi0 PhiInv0 pow0 [row1 "a" 1 (1#4); row1 "a" 1 (3#4); row1 "a" 0 (1#2)] GStr Mfnr None true
+                 (identity_sampler 2 MBca) (fun _ => Err) (1#8) 1 Pos Pos (TList [1#2; 1]) = Ok bf /\
+    b_lower bf = Some lo /\ b_upper bf = Some hi /\
+    table_eqb (f_data (b_values bf)) [[Some (1#2); Some 1]] = true /\
+    table_eqb (f_data lo) [[Some (1#2); Some 1]] = true /\ table_eqb (f_data hi) [[Some (1#2); Some 1]] = true.
+Proof. split; [vm_compute; reflexivity|]. eexists. eexists. eexists. repeat split; vm_compute; reflexivity. Qed.
+Close Scope string_scope.
+
+Lemma rows_of_in k rows r : In r (rows_of k rows) <-> In r rows /\ r_keys r = k.
+Proof. unfold rows_of. rewrite filter_In, key_eqb_eq. tauto. Qed.
